@@ -278,6 +278,11 @@ def make(I):
             I.throw('TypeError', 'precision must be an integer')
         return Rope([Fmt(value, prec, kind)])
 
+    def fs_initially(I, what, path):
+        """the ghost file system's initial answer to lexists / exists for a path (not affected by files the run has created)"""
+        from .stdlib_models import fs_query
+        return fs_query(I, what, path, initial=True)
+
     def ghost(I):
         g = I.ctx.ghost.get('$dict')
         if g is None:
@@ -301,6 +306,6 @@ def make(I):
               arr_from_fn=F('arr_from_fn', arr_from_fn), arr_at=F('arr_at', arr_at), is_array=F('is_array', is_array),
               cos=F('cos', N.np_cos), sin=F('sin', N.np_sin), sqrt=F('sqrt', lambda I, x: B.sqrt_(I, x)), PI=N.PI,
               deepcopy=F('deepcopy', lambda I, v: I.ext_modules and __import__('pyvc.stdlib_models', fromlist=['x']).deepcopy(I, v)),
-              rope_fmt=F('rope_fmt', rope_fmt), ghost=F('ghost', ghost), shape_of=F('shape_of', shape_of),
+              rope_fmt=F('rope_fmt', rope_fmt), ghost=F('ghost', ghost), fs_initially=F('fs_initially', fs_initially), shape_of=F('shape_of', shape_of),
               fmt_pieces=F('fmt_pieces', fmt_pieces), SYMBOLIC=True)
     return ModuleNS('vprim', ns)
